@@ -1,3 +1,62 @@
--- stub: the driver of C18 is not built yet
 import WmModel.Basic
-def main : IO Unit := Wm.driverMain (fun _ => "bad-op")
+import WmModel.ReqReply
+import WmModel.ReqReplyConf
+import WmModel.ReqReplyMon
+open Wm Wm.ReqReply
+
+/-!
+  Line protocol of C18 (requests written by harness/cmd/c18):
+
+  `cmd <ackErrs> <pre> <pub> <bad> <res> <err>`   M: the effect list of `ReqReply.onCommandProcessed`, printed as the harness
+                                                   prints what the real handler did;  P: `ReqReplyMon.monCmd` on the observation
+  `lst <spec> <i> <hasTimeout> <tok>*`             M: inclusion of the recorded stream of one request in the listener model
+                                                   (`ReqReplyConf.checkLst`: `ok` | `reject@<i>`);  P: `ReqReplyMon.monLst`
+  `top <spec> <ackErrs> <hasTimeout> <n> <event>*` M: `ok` (nothing to predict);  P: `ReqReplyMon.monTop` – the property on the trace
+-/
+
+def preOf : String → Option Pre
+  | "ok" => some .ok | "marshal" => some .marshalFails | "noop" => some .noOpId | "modify" => some .modifyFails
+  | "topic" => some .topicFails | _ => none
+
+def pubOf : String → Option PubRes
+  | "ok" => some .ok | "fail" => some .failed | "failh" => some .failed | "handled" => some .failedHandled | _ => none
+
+def showErr : Option String → String
+  | none => "-"
+  | some e => "=" ++ e
+
+/-- print the model's effects the way harness/cmd/c18/cmdcase.go prints the real ones -/
+def modelCmd (r : ReqReplyMon.CmdReq) : String :=
+  match preOf r.pre, pubOf r.pub, ReqReplyConf.parseErr r.err with
+  | some pre, some p, some err =>
+    let (effs, retErr) := onCommandProcessed r.ackErrs pre 0 ⟨r.res, err, r.bad⟩ p
+    let toks := effs.map fun e => match e with
+      | .publishCall n => s!"pub,{if n.op == 0 then "1" else "0"},{n.res},{showErr n.err},{if n.bad then "fail" else "ok"}"
+      | .publishRet ok => if ok then "pr,ok" else "pr,err"
+      | .ack => "ack" | .nack => "nack"
+    " ".intercalate (toks ++ [if retErr then "ret,err" else "ret,nil"])
+  | _, _, _ => "bad-op"
+
+def handle (line : String) : String :=
+  let (req, obs) := match line.splitOn " ## " with
+    | [r, o] => (r, o)
+    | _ => (line, "")
+  match req.splitOn " " with
+  | "M" :: "cmd" :: f =>
+    match ReqReplyMon.parseCmd f with
+    | some r => modelCmd r
+    | none => "bad-op"
+  | "P" :: "cmd" :: f =>
+    match ReqReplyMon.parseCmd f with
+    | some r => ReqReplyMon.monCmd r (obs.splitOn " " |>.filter (· ≠ ""))
+    | none => "bad-op"
+  | "M" :: "lst" :: _spec :: i :: t :: toks =>
+    match i.toNat?, ReqReplyMon.b01 t with
+    | some _, some t => ReqReplyConf.checkLst t (if toks == ["-"] then [] else toks)
+    | _, _ => "bad-op"
+  | "P" :: "lst" :: _spec :: _i :: _t :: toks => ReqReplyMon.monLst toks
+  | "M" :: "top" :: toks => if (ReqReplyMon.parseTop toks).isSome then "ok" else "bad-op"
+  | "P" :: "top" :: toks => ReqReplyMon.monTop toks
+  | _ => "bad-op"
+
+def main : IO Unit := driverMain handle
